@@ -4,9 +4,13 @@ import Taskpool.Inv.QueueShell
 Model: `Taskpool/Model/Queue.lean` (M2): `asyncio.Queue` + `async with queue as item` of
 `asyncio_taskpool.queue_context.Queue`.  A *history* is any list of `Input`s
 (`put x` · `spawn` a consumer · `join` = spawn a `join()` waiter · `cancel c` · `gate c ok|exc` = the body of
-consumer `c` ends normally / raises · `run i` = the loop executes its `i`-th ready handle), applied to the empty
-queue.  Every theorem quantifies over **all** histories, hence over every interleaving of producers, consumers, body
-failures and cancellations before / inside the block, and over every handle order.
+consumer `c` ends normally / raises · `take` = code outside every consumer task calls `get_nowait()` and marks the
+item it got by hand with `item_processed()` · `run i` = the loop executes its `i`-th ready handle), applied to the
+empty queue.  Every theorem quantifies over **all** histories, hence over every interleaving of producers, consumers,
+hand marks, body failures and cancellations before / inside the block, and over every handle order.
+
+An item leaves the books in exactly one of two ways: the block it was handed to exits (`exits`, one per consumer
+with `CPhase.done e true`), or it was taken and marked by hand (`takes`).
 
 Only property theorems and their non-vacuity examples live here; the invariant and its preservation are in
 `Taskpool/Inv/Queue{Inv,Refine,Steps,Shell}.lean`. -/
@@ -17,13 +21,13 @@ open QueueM
 abbrev QueueM.after (ins : List Input) : Q := Q.init.run ins
 
 /-- **C20, exactly once.** In every reachable state: the number of `task_done()` calls equals the number of block
-exits, which equals the number of consumers that were handed an item and have left their block; and consumer by
-consumer, the `__aexit__` of a consumer has called `task_done()` exactly once if it was handed an item and its block
+exits plus the number of hand-marked items; the number of block exits equals the number of consumers that were handed
+an item and have left their block; and consumer by consumer (hand marks or not), the `__aexit__` of a consumer has called `task_done()` exactly once if it was handed an item and its block
 has been left (normally, by exception or by cancellation — `CPhase.done e true` for every `e`), and not at all
 otherwise: not while it still waits, not while it is inside the block, and not if it was cancelled while waiting
 (`CPhase.done .cancelled false`). -/
 theorem C20_marks_once (ins : List Input) :
-    (after ins).k.tdCalls = (after ins).k.exits
+    (after ins).k.tdCalls = (after ins).k.exits + (after ins).k.takes
     ∧ (after ins).k.exits = (after ins).k.cores.countP Core.tookDone
     ∧ ∀ (c : Nat) (x : Core), (after ins).k.cores[c]? = some x → x.marks = if x.tookDone then 1 else 0 := by
   have hi := Q.inv_reach ins
@@ -33,32 +37,40 @@ theorem C20_marks_once (ins : List Input) :
 /-- **C20, a consumer cancelled while still waiting marks nothing.** Whatever the history and whatever the next
 input: if it ends a consumer that had not been handed an item (not started, or waiting in `get()`), then that
 consumer ended by cancellation, made no `task_done()` call, and the step removed no item and left the unfinished
-counter and the number of `task_done()` calls untouched. -/
+counter, the number of `task_done()` calls and the number of hand marks untouched. -/
 theorem C20_cancelled_waiter_marks_nothing (ins : List Input) (i : Input) (c : Nat) (x x' : Core)
     (hx : (after ins).k.cores[c]? = some x) (hp : preBlock x.phase = true)
     (hx' : ((after ins).step i).k.cores[c]? = some x') (hd : Q.isDone x'.phase = true) :
     x'.phase = .done .cancelled false ∧ x'.marks = 0
     ∧ ((after ins).step i).k.items = (after ins).k.items
     ∧ ((after ins).step i).k.unfinished = (after ins).k.unfinished
-    ∧ ((after ins).step i).k.tdCalls = (after ins).k.tdCalls := by
+    ∧ ((after ins).step i).k.tdCalls = (after ins).k.tdCalls
+    ∧ ((after ins).step i).k.takes = (after ins).k.takes := by
   have := (Q.kstep_step (after ins) i).cancelled_waiter (Q.inv_reach ins) c x x' hx hp hx' hd
-  exact ⟨this.1, this.2.1, this.2.2.1, this.2.2.2.1, this.2.2.2.2.1⟩
+  exact ⟨this.1, this.2.1, this.2.2.1, this.2.2.2.1, this.2.2.2.2.1, this.2.2.2.2.2.2.2⟩
 
 /-- **C20, the books.** In every reachable state the unfinished counter is the number of items still queued plus the
-number of consumers inside their block, and `puts = exits + unfinished`, i.e. `unfinished = puts − exits`. -/
+number of consumers inside their block, and `puts = exits + takes + unfinished`, i.e.
+`unfinished = puts − exits − takes`: every item put is still unfinished, or its block has exited, or it was taken and
+marked by hand. -/
 theorem C20_unfinished_eq (ins : List Input) :
     (after ins).k.unfinished = (after ins).k.items.length + (after ins).k.cores.countP Core.inBlock
-    ∧ (after ins).k.puts = (after ins).k.exits + (after ins).k.unfinished := by
+    ∧ (after ins).k.puts = (after ins).k.exits + (after ins).k.takes + (after ins).k.unfinished := by
   obtain ⟨a, b, _, _, _⟩ := (Q.inv_reach ins).cnt
   exact ⟨a, b⟩
 
-/-- nothing is unfinished exactly when every item put so far has been taken and its block has exited -/
+/-- nothing is unfinished exactly when every item put so far has been taken by a block that has exited or was taken
+and marked by hand (`exits` = number of consumers that were handed an item and have left their block, by
+`C20_marks_once`); equivalently, when no item is queued and no consumer is inside its block -/
 theorem C20_all_done_iff (ins : List Input) :
-    ((after ins).k.unfinished = 0 ↔ (after ins).k.puts = (after ins).k.exits)
+    ((after ins).k.unfinished = 0 ↔ (after ins).k.puts = (after ins).k.exits + (after ins).k.takes)
+    ∧ ((after ins).k.unfinished = 0 ↔
+        (after ins).k.puts = (after ins).k.cores.countP Core.tookDone + (after ins).k.takes)
     ∧ ((after ins).k.unfinished = 0 ↔
         (after ins).k.items = [] ∧ ∀ x ∈ (after ins).k.cores, x.inBlock = false) := by
   obtain ⟨a, b⟩ := C20_unfinished_eq ins
-  refine ⟨by omega, ?_⟩
+  obtain ⟨_, e, _⟩ := C20_marks_once ins
+  refine ⟨by omega, by omega, ?_⟩
   constructor
   · intro h
     have h1 : (after ins).k.items.length = 0 := by omega
@@ -78,7 +90,8 @@ theorem C20_never_too_often (ins : List Input) :
 
 /-- **C20, join (release).** Take any reachable state and any `join()` waiter `j` whose future is still pending.
 Then work is unfinished, and whatever the next input: the waiter is released — future resolved, task scheduled — by
-that step **iff** the step brings the unfinished counter to zero; otherwise it is left exactly as it was. -/
+that step **iff** the step brings the unfinished counter to zero (a block exit or a hand mark — nothing else lowers
+the counter); otherwise it is left exactly as it was. -/
 theorem C20_join_iff (ins : List Input) (i : Input) (j : Nat) (x : Joiner)
     (hx : (after ins).k.joiners[j]? = some x) (hp : x.phase = .waiting) (hf : x.fut = .pending) :
     0 < (after ins).k.unfinished ∧
@@ -142,6 +155,96 @@ theorem C20_join_never_early_never_lost (ins : List Input) :
   · obtain ⟨a, b⟩ := hj.woken j x hx hp hf
     exact .inr ⟨a, b, (Q.shell_reach ins).ready j x hx b⟩
 
+/-- **C20, a block exit marks exactly once, whatever else happens on the queue.** Whatever the history (hand marks
+included) and whatever the next input: if it ends a consumer that is inside its block, then the block was left
+(`CPhase.done e true`: normally, by exception or by cancellation), the consumer had made no `task_done()` call before
+and has made exactly one now, and that step made exactly one `task_done()` call, which did not raise and lowered the
+unfinished counter by exactly one; it took no item and is no hand mark. -/
+theorem C20_block_exit_marks_once (ins : List Input) (i : Input) (c : Nat) (x x' : Core)
+    (hx : (after ins).k.cores[c]? = some x) (hp : isInBlock x.phase = true)
+    (hx' : ((after ins).step i).k.cores[c]? = some x') (hd : Q.isDone x'.phase = true) :
+    x.marks = 0 ∧ x'.marks = 1 ∧ (∃ e, x'.phase = .done e true)
+    ∧ ((after ins).step i).k.tdCalls = (after ins).k.tdCalls + 1
+    ∧ ((after ins).step i).k.exits = (after ins).k.exits + 1
+    ∧ ((after ins).step i).k.unfinished + 1 = (after ins).k.unfinished
+    ∧ ((after ins).step i).k.takes = (after ins).k.takes
+    ∧ ((after ins).step i).k.items = (after ins).k.items
+    ∧ ((after ins).step i).k.valueErrors = 0 := by
+  obtain ⟨a, b, c', d, e, f, g, h, _, j⟩ := (Q.kstep_step (after ins) i).block_exit (Q.inv_reach ins) c x x' hx hp hx' hd
+  exact ⟨a, b, c', d, e, f, g, h, by rw [j]; exact (Q.inv_reach ins).cnt.2.2.1⟩
+
+/-- **C20, a hand mark leaves the blocks alone.** Take any reachable state and let non-task code `take`.
+* The step changes no consumer: every consumer's phase and every consumer's `marks` are what they were (the list of
+  consumer cores is unchanged), and so are the event-loop bookkeeping of the consumer tasks and the `_getters` deque;
+  it is not a block exit.
+* On an empty queue (`QueueEmpty`) the step changes nothing at all.  Otherwise it removes the head item and makes
+  exactly one `task_done()` call, which does not raise: `takes` and the number of `task_done()` calls go up by one,
+  the unfinished counter goes down by one, and the log shows the item and the new counter value.
+* A block that exits after the `take` — after any continuation `more` of the history, by any input — still marks
+  exactly once: the consumer has no mark while inside its block and exactly one when it has left it, the exit step
+  makes exactly one `task_done()` call, lowers the unfinished counter by exactly one and is not counted as a hand
+  mark. -/
+theorem C20_hand_mark_leaves_blocks_alone (ins : List Input) :
+    ((after ins).step .take).k.cores = (after ins).k.cores
+    ∧ ((after ins).step .take).aux = (after ins).aux
+    ∧ ((after ins).step .take).getters = (after ins).getters
+    ∧ ((after ins).step .take).k.exits = (after ins).k.exits
+    ∧ ((after ins).k.items = [] → (after ins).step .take = after ins)
+    ∧ (∀ y rest, (after ins).k.items = y :: rest →
+        ((after ins).step .take).k.items = rest
+        ∧ ((after ins).step .take).k.takes = (after ins).k.takes + 1
+        ∧ ((after ins).step .take).k.tdCalls = (after ins).k.tdCalls + 1
+        ∧ ((after ins).step .take).k.unfinished + 1 = (after ins).k.unfinished
+        ∧ ((after ins).step .take).k.puts = (after ins).k.puts
+        ∧ ((after ins).step .take).k.valueErrors = 0
+        ∧ ((after ins).step .take).log
+            = (after ins).log ++ [.handTook y, .taskDone ((after ins).step .take).k.unfinished])
+    ∧ ∀ (more : List Input) (i : Input) (c : Nat) (x x' : Core),
+        (after (ins ++ .take :: more)).k.cores[c]? = some x → isInBlock x.phase = true →
+        ((after (ins ++ .take :: more)).step i).k.cores[c]? = some x' → Q.isDone x'.phase = true →
+        x.marks = 0 ∧ x'.marks = 1 ∧ (∃ e, x'.phase = .done e true)
+        ∧ ((after (ins ++ .take :: more)).step i).k.tdCalls = (after (ins ++ .take :: more)).k.tdCalls + 1
+        ∧ ((after (ins ++ .take :: more)).step i).k.unfinished + 1 = (after (ins ++ .take :: more)).k.unfinished
+        ∧ ((after (ins ++ .take :: more)).step i).k.takes = (after (ins ++ .take :: more)).k.takes := by
+  have hi := Q.inv_reach ins
+  have hk : ((after ins).step .take).k = (after ins).k.handTake := by simp [Q.step]
+  refine ⟨by rw [hk, K.cores_handTake], ?_, ?_, ?_, ?_, ?_, ?_⟩
+  · simp only [Q.step, Q.handTake]; split <;> rfl
+  · simp only [Q.step, Q.handTake]; split <;> rfl
+  · rw [hk]
+    rcases K.handTake_cases (after ins).k with ⟨_, e⟩ | ⟨y, rest, _, e⟩ <;> rw [e]
+    exact (K.frame_taskDone _).2.2.2.1
+  · intro h0
+    simp only [Q.step, Q.handTake]
+    split
+    · rfl
+    · rename_i y rest hit; rw [h0] at hit; cases hit
+  · intro y rest hit
+    have hpos : 0 < ({ (after ins).k with items := rest, takes := (after ins).k.takes + 1 } : K).unfinished :=
+      hi.pos_of_items y rest hit
+    have hk' : (after ins).k.handTake
+        = ({ (after ins).k with items := rest, takes := (after ins).k.takes + 1 } : K).taskDone := by
+      unfold K.handTake; rw [hit]
+    have hv := K.view_taskDone _ hpos
+    simp only [K.view, V.mk.injEq] at hv
+    obtain ⟨-, v2, -, -, v5, -, v7, v8, v9⟩ := hv
+    have hve : (after ins).k.valueErrors = 0 := hi.cnt.2.2.1
+    have hpos' : 0 < (after ins).k.unfinished := hpos
+    have hne : ¬ (after ins).k.unfinished = 0 := by omega
+    refine ⟨?_, ?_, ?_, ?_, ?_, ?_, ?_⟩
+    · rw [hk, hk']; exact (K.frame_taskDone _).1
+    · rw [hk, hk']; exact v9
+    · rw [hk, hk']; exact v7
+    · rw [hk, hk', v2]; show (after ins).k.unfinished - 1 + 1 = (after ins).k.unfinished; omega
+    · rw [hk, hk']; exact v5
+    · rw [hk, hk', v8]; exact hve
+    · have hu : ((after ins).step .take).k.unfinished = (after ins).k.unfinished - 1 := by rw [hk, hk', v2]
+      rw [hu]
+      simp only [Q.step, Q.handTake, hit, hne, if_false]
+  · intro more i c x x' hx hp hx' hd
+    obtain ⟨a, b, c', d, _, f, g, _⟩ := C20_block_exit_marks_once (ins ++ .take :: more) i c x x' hx hp hx' hd
+    exact ⟨a, b, c', d, f, g⟩
+
 /-! ## Non-vacuity
 
 One concrete history: two consumers start and wait; two items arrive; both consumers enter their blocks; a third
@@ -195,5 +298,38 @@ example : (after [.join]).ready[0]? = some (.joiner 0) ∧ (after [.join]).k.joi
 -- a normal exit as well
 example : ((after [.put 3, .spawn, .run 0, .gate 0 false, .run 0]).k.cores.map fun x => (x.phase, x.marks))
     = [(.done .ok true, 1)] := by decide +kernel
+
+/-! A history with hand marks: two items, consumer 0 is handed the first; while it is inside its block the second item
+is taken and marked by hand; a `join()` has to wait; the block exits and releases it.  (On this history a queue whose
+`__aexit__` skips the mark after a foreign `item_processed()` leaves the joiner waiting for ever.) -/
+def C20_demo₅ : List Input := [.put 1, .put 2, .spawn, .run 0]
+def C20_demo₆ : List Input := C20_demo₅ ++ [.take, .join, .run 0]
+def C20_demo₇ : List Input := C20_demo₆ ++ [.gate 0 false, .run 0]
+
+-- hypotheses of the `take` clause of `C20_hand_mark_leaves_blocks_alone`: an item is queued, a block is open
+example : (after C20_demo₅).k.items = [2] ∧ ((after C20_demo₅).k.cores.map fun x => (x.phase, x.marks)) = [(.inBlock 1, 0)]
+    ∧ (after C20_demo₅).k.unfinished = 2 := by decide +kernel
+-- the hand mark: one item gone, one unfinished less, the block untouched; the joiner has to wait for the block
+example : (after C20_demo₆).k.items = [] ∧ ((after C20_demo₆).k.cores.map fun x => (x.phase, x.marks)) = [(.inBlock 1, 0)]
+    ∧ (after C20_demo₆).k.unfinished = 1 ∧ (after C20_demo₆).k.takes = 1 ∧ (after C20_demo₆).k.tdCalls = 1
+    ∧ (after C20_demo₆).k.joiners[0]? = some ⟨.waiting, .pending, false⟩ := by decide +kernel
+-- hypotheses of its block-exit clause (`ins = demo₅`, `more = [join, run 0, gate 0 ok]`, `i = run 0`), and the outcome
+example : ((after (C20_demo₆ ++ [.gate 0 false])).k.cores.map (·.phase)) = [.inBlock 1]
+    ∧ (((after (C20_demo₆ ++ [.gate 0 false])).step (.run 0)).k.cores.map fun x => (x.phase, x.marks)) = [(.done .ok true, 1)] := by
+  decide +kernel
+example : (after C20_demo₇).k.unfinished = 0 ∧ (after C20_demo₇).k.puts = 2 ∧ (after C20_demo₇).k.exits = 1
+    ∧ (after C20_demo₇).k.takes = 1 ∧ (after C20_demo₇).k.tdCalls = 2
+    ∧ (after C20_demo₇).k.joiners[0]? = some ⟨.waiting, .woken, true⟩ := by decide +kernel
+example : (after (C20_demo₇ ++ [.run 0])).log = [.got 0 1, .handTook 2, .taskDone 1, .exited 0, .taskDone 0, .joined 0] := by
+  decide +kernel
+-- a hand mark can be the step that releases a joiner (`C20_join_iff` with `i = take`)
+example : (after [.put 5, .join, .run 0]).k.joiners[0]? = some ⟨.waiting, .pending, false⟩
+    ∧ ((after [.put 5, .join, .run 0]).step .take).k.unfinished = 0
+    ∧ ((after [.put 5, .join, .run 0]).step .take).k.joiners[0]? = some ⟨.waiting, .woken, true⟩ := by decide +kernel
+-- `take` on an empty queue changes nothing
+example : (after [.spawn, .run 0, .take]).k.takes = 0 ∧ (after [.spawn, .run 0, .take]).log = [] := by decide +kernel
+-- an item taken by hand from under a woken getter: the consumer goes back to waiting, marks nothing
+example : ((after [.spawn, .run 0, .put 4, .take, .run 0]).k.cores.map fun x => (x.phase, x.marks)) = [(.waiting, 0)]
+    ∧ (after [.spawn, .run 0, .put 4, .take, .run 0]).k.unfinished = 0 := by decide +kernel
 
 end Taskpool
